@@ -1645,8 +1645,8 @@ impl Check for C24 {
         let v = self.run_case(case, obs);
         let used = cpu_ms().saturating_sub(t0);
         let used_main = segv::main_thread_cpu_ms().saturating_sub(m0);
-        if used > 1000 && segv::installed() {
-            // information for the watchdog budget: which statements are slow without hanging
+        if used > 1000 && segv::installed() && std::env::var("VERIF_LOG_SLOW").is_ok() {
+            // dev aid (VERIF_LOG_SLOW=1): which statements are slow without hanging => evidence/C24.slow.log
             let root = std::env::var("VERIF_ROOT").unwrap_or_else(|_| "/verif".into());
             use std::io::Write;
             if let Ok(mut fh) = std::fs::OpenOptions::new().create(true).append(true).open(std::path::Path::new(&root).join("evidence").join("C24.slow.log")) {
